@@ -22,8 +22,8 @@ func sightline(context *api.Context, from b6.Geometry, radius float64) (b6.Area,
 	if err := requireGeometry("sightline", from); err != nil {
 		return nil, err
 	}
-	if !(radius > 0.0) {
-		return nil, fmt.Errorf("sightline: radius must be greater than 0, found %f", radius)
+	if !(radius > 0.0) || math.IsInf(radius, 0) {
+		return nil, fmt.Errorf("sightline: radius must be finite and greater than 0, found %f", radius)
 	}
 	if centroid, ok := b6.Centroid(from); ok {
 		if !centroid.IsUnit() {
